@@ -72,16 +72,8 @@ impl Lexer<'_> {
                 return Ok(None);
             }
             None => {
-                // The input ended just after a single `)`. As in the case
-                // above, this may still be a complete command substitution
-                // (e.g. `$((echo '('))`), so try parsing it as such before
-                // reporting the unclosed arithmetic expansion.
-                let location = self.location().await?.clone();
-                self.rewind(orig_index);
-                if let Ok(Some(unit)) = self.command_substitution(start_index).await {
-                    return Ok(Some(unit));
-                }
                 let cause = SyntaxError::UnclosedArith { opening_location }.into();
+                let location = self.location().await?.clone();
                 return Err(Error { cause, location });
             }
         }
